@@ -37,6 +37,26 @@ fn c23_body(order: usize) {
 // ---------------------------------------------------------------------------------------------
 pub(crate) const NROWS: usize = ROWS;
 
+impl Bitfield {
+    /// (harness) raw access to the rows, bypassing the observers
+    pub(crate) fn row_atom(&self, r: usize) -> &Atom<u64> {
+        &self.data[r]
+    }
+    pub(crate) fn data_ptr(&self) -> *const u8 {
+        self.data.as_ptr().cast()
+    }
+}
+/// Which row (and byte shift inside it) an atomic access at `addr` touches. Pointer equality
+/// first: with concrete addresses CBMC folds it to a constant (keeps all ghost indices concrete).
+pub(crate) fn row_of_addr(b: &Bitfield, addr: *const u8) -> Option<(usize, usize)> {
+    for r in 0..ROWS {
+        if core::ptr::eq(addr, (&b.data[r] as *const Atom<u64>).cast()) {
+            return Some((r, 0));
+        }
+    }
+    let off = (addr as usize).wrapping_sub(b.data.as_ptr() as usize);
+    if off < ROWS * 8 { Some((off / 8, (off % 8) * 8)) } else { None }
+}
 pub(crate) fn any_bitfield() -> Bitfield {
     Bitfield { data: core::array::from_fn(|_| Atom::new(kani::any())) }
 }
@@ -260,9 +280,9 @@ static mut ENV_STEPS: usize = 0;
 fn bf_env(addr: *const u8, _size: usize) {
     unsafe {
         let b = &*BF;
-        let off = (addr as usize).wrapping_sub(b.data.as_ptr() as usize);
-        if off < ROWS * 8 && kani::any() {
-            let r = off / 8;
+        if let Some((r, _)) = row_of_addr(b, addr)
+            && kani::any()
+        {
             let v: u64 = kani::any();
             b.data[r].0.store(v | MINE[r], core::sync::atomic::Ordering::Relaxed);
             ENV_STEPS += 1;
@@ -272,13 +292,9 @@ fn bf_env(addr: *const u8, _size: usize) {
 /// Ghost update for my own successful writes (any access width).
 fn bf_on_write(addr: *const u8, size: usize, old: u64, new: u64) {
     unsafe {
-        let base = (*BF).data.as_ptr() as usize;
-        let off = (addr as usize).wrapping_sub(base);
-        if off >= ROWS * 8 {
+        let Some((r, sh)) = row_of_addr(&*BF, addr) else {
             return;
-        }
-        let r = off / 8;
-        let sh = (off % 8) * 8;
+        };
         let (old, new) = if size >= 8 { (old, new) } else { ((old & ((1u64 << (size * 8)) - 1)) << sh, (new & ((1u64 << (size * 8)) - 1)) << sh) };
         let set = new & !old;
         let cleared = old & !new;
@@ -320,8 +336,9 @@ fn mine_empty() -> bool {
 /// Untargeted allocation inside one bitfield under interference.
 fn int_set_first_zeros_body(order: usize, freeze: bool) {
     let b = any_bitfield();
-    let start: usize = kani::any();
-    kani::assume(start < (1 << 34));
+    // The row hint only rotates the search order (all hints are covered sequentially by
+    // b_set_first_zeros_*); two concrete hints keep every address in this harness concrete.
+    let start: usize = if kani::any() { 0 } else { 5 };
     bf_interference(&b, freeze);
     let r = b.set_first_zeros(RowId(start), order);
     set_mode(Mode::Off);
